@@ -131,6 +131,19 @@ func (s *brSys) call(name, kind string) {
 			defer func() { panicked = recover() }()
 			ret = b.Do(func() error { ran++; panic("req-panic") })
 		}()
+	case "panicnil":
+		// a panic whose value is nil (re-raising an error variable that happens to be nil):
+		// recover() reports nil under the module's go 1.19 semantics, so the panic is told
+		// from a normal return by whether Do returned at all
+		returned := false
+		func() {
+			defer func() { recover() }()
+			ret = b.Do(func() error { ran++; var e error; panic(e) })
+			returned = true
+		}()
+		if ran > 0 && returned {
+			s.r.Failf("%s/panicnil: the protected function panicked (with a nil value) but Do returned normally with %v: the panic was swallowed", name, ret)
+		}
 	case "allowA", "allowR":
 		p, err := b.Allow()
 		if err != nil {
@@ -302,7 +315,7 @@ func brSetup() {
 func TestVerifBreakerHistories(t *testing.T) {
 	defer vrt.WriteReport()
 	brSetup()
-	ops := []string{"ok", "fail", "failx6", "okx6", "acc", "unacc", "nilunacc", "fbnilunacc", "panic", "fbfail", "fbacc", "allowA", "allowR",
+	ops := []string{"ok", "fail", "failx6", "okx6", "acc", "unacc", "nilunacc", "fbnilunacc", "panic", "panicnil", "fbfail", "fbacc", "allowA", "allowR",
 		"draw:lo", "draw:mid", "draw:hi", "t125", "t250", "t2500", "t9750", "t10000", "t10250", "t25000",
 		"A:failx6", "A:ok", "B:fail", "B:failx6", "A:nobreaker"}
 	depth := 4
